@@ -265,23 +265,29 @@ def mkhdr_query(i, lens, core=False, witness=False):
     return Query("mkhdr/shape%02d" % i, R, p, core=core, family="mkhdr", weight=2)
 
 
-def asmdec_query(variant, n, pad, avail_out, valid_only, core=False, witness=False, timeout=None, mem_gb=None, unwind=None):
+def asmdec_query(variant, n, pad, avail_out, valid_only, core=False, witness=False, timeout=None, mem_gb=None, unwind=None, refcap=None,
+                 hunt=None, hunt_only=False):
     """C02/C06: the ASSEMBLY Huffman block decoder (_01 / _04), lifted to C at check time, under the fixed-Huffman oracle of h_fixed.c."""
     nt = n + pad
     hdef = ["N=%d" % n, "PAD=%d" % pad, "AVAIL_OUT=%d" % avail_out, "ASMDEC=%s" % variant] + (["VALID_ONLY"] if valid_only else [])
+    if refcap:
+        hdef.append("REFCAP=%d" % refcap)
     syms2 = 8 * (nt + 2) // 7 + 3
     cp = max(8, avail_out) + 1
     fn = "lift_decode_huffman_code_block_stateless_%s" % variant
     p = dict(harness="harness/C02/h_fixed.c", units=["igzip/hufftables_c.c"], defines=FAST, hdefines=hdef,
              instrument=[["@gen", "harness.inflate_common.lift_gen:gen_asmdec", "lift_asmdec.c", {"variant": variant}]],
              unwind=unwind or max(12, nt + 3),
-             unwindset=["rfc_codes.1:%d" % syms2, "rfc_codes.0:%d" % (min(avail_out, 258) + 3), "rfc_bits.0:17", "rfc_code_bits.0:9",
+             unwindset=["rfc_codes.1:%d" % syms2, "rfc_codes.0:%d" % (min(refcap or avail_out, avail_out, 258) + 3), "rfc_bits.0:17", "rfc_code_bits.0:9",
                         "LIFT_RD.0:9", "LIFT_WR.0:9", "lift_rep_movs.0:%d" % (min(258, max(avail_out, 8)) + 2), "lift_ctz.0:65", "lift_clz.0:65"] + ["harness.%d:%d" % (k, max(9, avail_out + 2, nt + 3)) for k in range(6)],
              flags=["--slice-formula"], witness=witness)
     if timeout:
         p["timeout"] = timeout
     if mem_gb:
         p["mem_gb"] = mem_gb
+    if hunt is not None:
+        p["hunt_unwind"] = hunt
+        p["hunt_only"] = hunt_only
     fam = "asm_%s_%s" % (variant, "valid" if valid_only else "arbitrary")
     return Query("%s/n%d_pad%d_ao%d" % (fam, n, pad, avail_out), R, p, core=core, family=fam, weight=40 * 4 ** n)
 
